@@ -113,7 +113,12 @@ def _judge_A(ctx, objs, rc, out, tier_label):
             act_open = o["act"].get("open")
             cf = case["c"]["f"] + ("+fix" if case["c"].get("fix") else "")
             fields = ",".join(o.get("fields", []))
-            if case.get("wf"):
+            if set(o.get("fields", [])) <= {"ver"}:
+                # the name of the version variant (V3 / V4 / V4Crude) is a detail, not content
+                key = "drift:%s:%s:version-name" % (o.get("flavour"), cf)
+                msg = "version variant reported as %s, spec %s (corruption %s)" % (o["act"].get("ver"), case["exp"].get("ver"), cf)
+                viol = False
+            elif case.get("wf"):
                 key = "wf-not-read-back:%s:v%s:%s:%s" % (o.get("flavour"), case["v"], fields, act_open)
                 msg = "a well-formed version %s file was not read back as stored (reader flavour '%s': %s; open=%s)" % (
                     case["v"], o.get("flavour"), fields, act_open)
